@@ -138,7 +138,7 @@ func (rb *Rebalancer) ServeHTTP(w http.ResponseWriter, req *http.Request) {
 		}
 
 		if present {
-			newReq.URL = cookieURL
+			newReq.URL = utils.CopyURL(cookieURL)
 			stuck = true
 		}
 	}
